@@ -211,7 +211,7 @@ def munu_case(draw):
     mus = [180.0 * (1 + draw(uf)) for _ in range(draw(st.integers(1, 4)))]
     return dict(stripe=stripe, points=pts, mus=mus, grid2d=draw(st.sampled_from([False, False, True])),
                 distance=draw(st.sampled_from([None, None, 0.5, 3.0, 1.0])), rep=draw(st.sampled_from(['spherical', 'spherical', 'cartesian'])),
-                stripe_type=draw(st.sampled_from(['int', 'int', 'uint8', 'int64', 'uint16', 'float'])), touch_incl=draw(st.sampled_from([False, False, True])))
+                stripe_type=draw(st.sampled_from(['int', 'int', 'uint8', 'int64', 'uint16', 'float'])), touch_incl=draw(st.sampled_from([False, False, True])), setitem=draw(st.sampled_from([False, False, True])))
 
 
 def unit_radec(ra, dec):
@@ -277,6 +277,16 @@ def munu_body(case):
         except Exception:
             note_label('incl-not-modifiable-in-place')
         note_label('returned-incl-modified-by-caller')
+    if case.get('setitem') and len(P) >= 2 and not case.get('grid2d') and case.get('rep') != 'cartesian' and not case.get('distance'):
+        # a catalogue object that is transformed, corrected in one row (item assignment) and transformed again: the second answer belongs to
+        # the corrected positions.  The object is built with the first two rows swapped and put right afterwards.
+        Pw = P.copy()
+        Pw[[0, 1]] = Pw[[1, 0]]
+        icrs = ICRS(ra=Pw[:, 0] * u.deg, dec=Pw[:, 1] * u.deg)
+        call(icrs.transform_to, SDSSMuNu(stripe=s_arg), what='ICRS->SDSSMuNu (before the correction)')
+        icrs[0] = ICRS(ra=P[0, 0] * u.deg, dec=P[0, 1] * u.deg)
+        icrs[1] = ICRS(ra=P[1, 0] * u.deg, dec=P[1, 1] * u.deg)
+        note_label('rows-assigned-between-two-transforms')
     mn = call(icrs.transform_to, SDSSMuNu(stripe=s_arg), what='ICRS->SDSSMuNu')
     with judge('forward'):
         check(np.shape(mn.mu) == shp, 'munu:shape-not-kept', lambda: dict(got=np.shape(mn.mu), want=shp))
@@ -368,6 +378,16 @@ def angle_body(case):
         ref = np.stack([np.cos(ph) * np.sin(th), np.sin(ph) * np.sin(th), np.cos(th)], -1)
         check(bool(np.all(np.abs(X - ref) < 1e-14)), 'angles_to_x:wrong-vector', lambda: dict(rows=case['rows'], got=X.tolist()))
         check(bool(np.all(np.abs(np.linalg.norm(X, axis=1) - 1) < 1e-14)), 'angles_to_x:not-unit')
+    if arg.dtype.kind == 'f':
+        # a work array that the caller refills: the same array object, new angles (azimuth + 37 deg, polar angle mirrored)
+        arg[:, 0] += 37.0
+        arg[:, 1] = -arg[:, 1] if lat else 180.0 - arg[:, 1]
+        Xn = call(angles_to_x, arg, latitude=lat)
+        with judge('angles_to_x-refilled'):
+            ph2, th2 = np.radians(A[:, 0] + 37.0), np.radians(180.0 - A[:, 1])
+            ref2 = np.stack([np.cos(ph2) * np.sin(th2), np.sin(ph2) * np.sin(th2), np.cos(th2)], -1)
+            check(np.shape(Xn) == (len(A), 3) and bool(np.all(np.abs(np.asarray(Xn) - ref2) < 1e-13)), 'angles_to_x:stale-answer-after-the-array-was-refilled',
+                  lambda: dict(got=np.asarray(Xn).tolist()[:3], want=ref2.tolist()[:3]))
     B = call(x_to_angles, X, latitude=lat)
     with judge('x_to_angles'):
         check(B.shape == (len(A), 2), 'x_to_angles:shape')
